@@ -27,13 +27,10 @@ import (
 	"encoding/xml"
 	"fmt"
 	"os"
-	"os/exec"
-	"path/filepath"
 	"regexp"
 	"sort"
 	"strconv"
 	"strings"
-	"sync"
 	"time"
 	"unicode/utf8"
 
@@ -707,427 +704,6 @@ func corpusSets() [][]ann {
 }
 
 // ---------------------------------------------------------------------------------------
-// part (ii): the real binary
-
-type ws struct {
-	Name        string            `json:"name"`
-	Files       map[string]string `json:"files"`         // relative path -> content (workspace dir)
-	Against     map[string]string `json:"against_files"` // for breaking
-	Cmd         string            `json:"cmd"`           // lint | breaking | build | format
-	Args        []string          `json:"args"`
-	ModelLine   string            `json:"model_line"`
-	PlantedLint int               `json:"planted_lint"`     // exact number of lint annotations expected (-1 = unknown)
-	PlantedBrk  int               `json:"planted_breaking"` // exact number of breaking annotations expected (-1 = unknown)
-	Compile     bool              `json:"compile_problem"`
-	Operational string            `json:"operational"`
-	Diff        bool              `json:"format_diff"`
-	Syntax      bool              `json:"syntax_error"`
-}
-
-const bufYAML = "version: v2\nlint:\n  use:\n    - FIELD_LOWER_SNAKE_CASE\n    - MESSAGE_PASCAL_CASE\nbreaking:\n  use:\n    - FIELD_NO_DELETE\n"
-
-var fileNamePool = []string{"a.proto", "b.proto", "sub/c.proto", "wé \"q\" <x>&.proto", "new\nline.proto", "c:d,e%25.proto", "日本/ファイル.proto", "x y.proto", "q'uote.proto"}
-
-type msgSpec struct {
-	name   string
-	fields []string // field names; camelCase ones are lint problems
-	extra  []string // fields only present in the against version (deleted now => breaking)
-}
-
-func renderFile(pkg string, imports []string, msgs []msgSpec, formatted bool, against bool, unknownType bool, syntaxBad bool) string {
-	var b strings.Builder
-	b.WriteString("syntax = \"proto3\";\n\npackage " + pkg + ";\n")
-	if len(imports) > 0 {
-		b.WriteString("\n")
-		for _, imp := range imports {
-			b.WriteString("import \"" + imp + "\";\n")
-		}
-	}
-	for _, m := range msgs {
-		b.WriteString("\nmessage " + m.name + " {\n")
-		n := 1
-		for _, f := range m.fields {
-			b.WriteString(fmt.Sprintf("  string %s = %d;\n", f, n))
-			n++
-		}
-		if against {
-			for _, f := range m.extra {
-				b.WriteString(fmt.Sprintf("  string %s = %d;\n", f, n+10))
-				n++
-			}
-		}
-		if unknownType && !against {
-			b.WriteString(fmt.Sprintf("  Undefined%s undefined_ref = %d;\n", m.name, n+30))
-		}
-		b.WriteString("}\n")
-	}
-	if syntaxBad && !against {
-		b.WriteString("\nmessage {\n")
-	}
-	s := b.String()
-	if !formatted {
-		s = strings.Replace(s, " {\n  string", " {   string", 1)
-		if !strings.Contains(s, "{   string") {
-			s = strings.Replace(s, "package "+pkg+";\n", "package   "+pkg+";\n", 1)
-		}
-	}
-	return s
-}
-
-func genWorkspace(r *hx.Rand, i int) ws {
-	w := ws{Name: fmt.Sprintf("ws%d", i), Files: map[string]string{"buf.yaml": bufYAML}, Against: map[string]string{"buf.yaml": bufYAML}, PlantedLint: 0, PlantedBrk: 0}
-	w.Cmd = []string{"lint", "lint", "breaking", "build", "format"}[r.Intn(5)]
-	nFiles := 1 + r.Intn(3)
-	lintClean := r.Chance(2, 5)
-	// a quarter of the workspaces have two modules: lint / breaking then run once per module
-	// and the command merges the per-module annotation sets
-	multi := r.Chance(1, 4)
-	yaml := bufYAML
-	if multi {
-		yaml = strings.Replace(bufYAML, "version: v2\n", "version: v2\nmodules:\n  - path: m1\n  - path: m2\n", 1)
-		w.Files["buf.yaml"], w.Against["buf.yaml"] = yaml, yaml
-		nFiles = 2 + r.Intn(2)
-	}
-	names := append([]string(nil), fileNamePool...)
-	hx.Shuffle(r, names)
-	anyCompile, anySyntax, anyImport := false, false, false
-	uniq := 0
-	for f := 0; f < nFiles; f++ {
-		name := names[f]
-		if multi {
-			name = []string{"m1/", "m2/"}[f%2] + name
-		}
-		var msgs []msgSpec
-		for m := 0; m < 1+r.Intn(2); m++ {
-			ms := msgSpec{name: fmt.Sprintf("M%d%c", f, 'A'+m)}
-			if !lintClean && r.Chance(1, 6) {
-				ms.name = fmt.Sprintf("m%d_bad%c", f, 'a'+m) // MESSAGE_PASCAL_CASE
-				w.PlantedLint++
-			}
-			for k := 0; k < 1+r.Intn(3); k++ {
-				uniq++
-				if !lintClean && r.Chance(1, 3) {
-					ms.fields = append(ms.fields, fmt.Sprintf("camelCase%d", uniq))
-					w.PlantedLint++
-				} else {
-					ms.fields = append(ms.fields, fmt.Sprintf("snake_case_%d", uniq))
-				}
-			}
-			if w.Cmd == "breaking" && r.Chance(1, 2) {
-				for k := 0; k < 1+r.Intn(2); k++ {
-					uniq++
-					ms.extra = append(ms.extra, fmt.Sprintf("deleted_%d", uniq))
-					w.PlantedBrk++
-				}
-			}
-			msgs = append(msgs, ms)
-		}
-		var imports []string
-		unknown, syntaxBad := false, false
-		switch r.Intn(24) {
-		case 0:
-			unknown, anyCompile = true, true
-		case 1:
-			imports, anyImport = []string{"nope/miss<ing> é.proto"}, true
-		case 2:
-			if w.Cmd != "breaking" {
-				syntaxBad, anySyntax = true, true
-			}
-		}
-		formatted := !r.Chance(1, 3)
-		if !formatted {
-			w.Diff = true
-		}
-		pkg := fmt.Sprintf("pkg%d", f)
-		w.Files[name] = renderFile(pkg, imports, msgs, formatted, false, unknown, syntaxBad)
-		w.Against[name] = renderFile(pkg, nil, msgs, true, true, false, false)
-	}
-	w.Compile = anyCompile || anySyntax || anyImport
-	w.Syntax = anySyntax
-	if r.Chance(1, 9) {
-		switch r.Intn(3) {
-		case 0:
-			w.Operational = "bad-config"
-			w.Files["buf.yaml"] = "version: v9\n"
-		case 1:
-			w.Operational = "missing-input"
-		case 2:
-			w.Operational = "bad-flag"
-		}
-	}
-	ctl, checks := "o", "o"
-	switch {
-	case w.Operational != "":
-		ctl = "x"
-	case w.Compile:
-		ctl = "a"
-	}
-	switch w.Cmd {
-	case "lint":
-		if w.PlantedLint > 0 {
-			checks = "a"
-		}
-		w.ModelLine = "exit\tlint\t" + ctl + "\t" + checks
-	case "breaking":
-		if w.PlantedBrk > 0 {
-			checks = "a"
-		}
-		w.ModelLine = "exit\tbreaking\t" + ctl + "o\t" + checks
-		if ctl != "o" {
-			w.ModelLine = "exit\tbreaking\t" + ctl + "\t" + checks
-		}
-	case "build":
-		w.ModelLine = "exit\tbuild\t" + ctl
-	case "format":
-		fctl, fstep := "o", "o"
-		if w.Operational != "" {
-			fctl = "x"
-		} else if anySyntax {
-			fstep = "x"
-		}
-		d := "0"
-		if w.Diff {
-			d = "1"
-		}
-		w.ModelLine = "exit\tformat\t1\t" + fctl + "\t" + fstep + "\t" + d + "\to"
-	}
-	return w
-}
-
-// collisionWorkspace plants two FIELD_LOWER_SNAKE_CASE annotations in one file whose
-// (start line, start column, end line, end column) are (2,31,2,37) and (23,1,23,7): written
-// back to back both give "231237".
-func collisionWorkspace() ws {
-	var b strings.Builder
-	b.WriteString("syntax = \"proto3\";\n")
-	b.WriteString("message Aaaaaaaaaaaaaa{string fooBar=1;}\n")
-	for i := 3; i <= 21; i++ {
-		b.WriteString("\n")
-	}
-	b.WriteString("message B{string\nfooBar=1;}\n")
-	return ws{Name: "collision", Files: map[string]string{"buf.yaml": bufYAML, "a.proto": b.String()}, Cmd: "lint",
-		ModelLine: "exit\tlint\to\ta", PlantedLint: 2, PlantedBrk: 0}
-}
-
-type procResult struct {
-	exit           int
-	stdout, stderr string
-}
-
-func runBuf(bufBin, dir string, args ...string) procResult {
-	cmd := exec.Command(bufBin, args...)
-	cmd.Dir = dir
-	cmd.Env = append(os.Environ(), "BUF_CACHE_DIR="+filepath.Join(filepath.Dir(dir), ".cache"), "HOME="+filepath.Dir(dir), "NO_COLOR=1")
-	var so, se bytes.Buffer
-	cmd.Stdout, cmd.Stderr = &so, &se
-	err := cmd.Run()
-	code := 0
-	if err != nil {
-		if ee, ok := err.(*exec.ExitError); ok {
-			code = ee.ExitCode()
-		} else {
-			code = -1
-			se.WriteString("\nexec error: " + err.Error())
-		}
-	}
-	return procResult{exit: code, stdout: so.String(), stderr: se.String()}
-}
-
-func writeTree(root string, files map[string]string) error {
-	for p, c := range files {
-		full := filepath.Join(root, p)
-		if err := os.MkdirAll(filepath.Dir(full), 0o755); err != nil {
-			return err
-		}
-		if err := os.WriteFile(full, []byte(c), 0o644); err != nil {
-			return err
-		}
-	}
-	return nil
-}
-
-var allFormats = []string{"text", "json", "msvs", "junit", "github-actions"}
-
-func hasFailureLine(stderr string) bool {
-	for _, l := range strings.Split(stderr, "\n") {
-		if strings.HasPrefix(l, "Failure:") || strings.HasPrefix(l, "unknown flag") || strings.HasPrefix(l, "Error:") {
-			return true
-		}
-	}
-	return false
-}
-
-// stripFailure removes the lines app.printError wrote, leaving the annotation stream.
-func annotationStream(w ws, p procResult) string {
-	if w.Cmd == "lint" || w.Cmd == "breaking" {
-		return p.stdout
-	}
-	// build / format print annotations on stderr; a "Failure:" text and usage go there too
-	if hasFailureLine(p.stderr) {
-		return ""
-	}
-	return p.stderr
-}
-
-func binaryCase(run *hx.Run, idx int, w ws, bufBin, scratch string) int {
-	replay := fmt.Sprintf("harness c20 --seed %d --tier %s --only %d   (workspace files are in the failure input)", run.Seed, run.Tier, idx)
-	root := filepath.Join(scratch, w.Name)
-	dir := filepath.Join(root, "work")
-	_ = os.RemoveAll(root)
-	if err := writeTree(dir, w.Files); err != nil {
-		panic(err)
-	}
-	if w.Cmd == "breaking" {
-		if err := writeTree(filepath.Join(root, "against"), w.Against); err != nil {
-			panic(err)
-		}
-	}
-	defer os.RemoveAll(root)
-	runs := 0
-	outs := map[string]procResult{}
-	results := make([]procResult, len(allFormats))
-	var wg sync.WaitGroup
-	for fi, f := range allFormats {
-		var args []string
-		switch w.Cmd {
-		case "lint":
-			args = []string{"lint", "--error-format", f}
-		case "breaking":
-			args = []string{"breaking", "--against", "../against", "--error-format", f}
-		case "build":
-			args = []string{"build", "-o", os.DevNull, "--error-format", f}
-		case "format":
-			args = []string{"format", "--exit-code", "-d", "--error-format", f}
-		}
-		switch w.Operational {
-		case "missing-input":
-			args = append(args, "../does-not-exist")
-		case "bad-flag":
-			args = append(args, "--no-such-flag")
-		}
-		w.Args = args
-		runs++
-		wg.Add(1)
-		go func() {
-			defer wg.Done()
-			results[fi] = runBuf(bufBin, dir, args...)
-		}()
-	}
-	wg.Wait()
-	for fi, f := range allFormats {
-		outs[f] = results[fi]
-	}
-	fail := func(class, what string) {
-		run.Fail(hx.OracleFailure{Class: class, What: w.Cmd + ": " + what, Input: w, Replay: replay})
-	}
-	// every format: same exit status
-	ref := outs["json"]
-	for _, f := range allFormats {
-		if outs[f].exit != ref.exit {
-			fail("exit-differs-by-format", fmt.Sprintf("exit %d with --error-format %s but %d with json", outs[f].exit, f, ref.exit))
-		}
-		if outs[f].exit < 0 || strings.Contains(outs[f].stderr, "panic:") || strings.Contains(outs[f].stderr, "goroutine ") {
-			fail("panic", fmt.Sprintf("buf crashed with --error-format %s: %.300s", f, outs[f].stderr))
-		}
-	}
-	fo := formatOutputs{text: annotationStream(w, outs["text"]), jsonOut: annotationStream(w, outs["json"]), msvs: annotationStream(w, outs["msvs"]),
-		junit: annotationStream(w, outs["junit"]), gha: annotationStream(w, outs["github-actions"])}
-	printed := 0
-	if w.Cmd == "format" && fo.jsonOut == "" {
-		// format prints the diff on stdout, annotations (never, as coded) on stderr
-	}
-	var recs []rec
-	if w.Cmd != "format" || fo.jsonOut != "" {
-		if fo.jsonOut != "" || fo.text != "" || fo.msvs != "" || fo.gha != "" {
-			want := -1
-			if !w.Compile && w.Operational == "" {
-				if w.Cmd == "lint" {
-					want = w.PlantedLint
-				} else if w.Cmd == "breaking" {
-					want = w.PlantedBrk
-				}
-			}
-			if fo.junit == "" {
-				fo.junit = "<testsuites></testsuites>\n"
-			}
-			class, what, rs, _ := crossCheck(fo, want)
-			recs = rs
-			if class != "" {
-				fail(class, what)
-			}
-			printed = len(rs)
-		}
-	}
-	failure := hasFailureLine(ref.stderr)
-	diffFound := w.Cmd == "format" && ref.stdout != "" && ref.exit != 1
-	// the property's verdict clauses
-	nothing := printed == 0 && !failure && !diffFound
-	if (ref.exit == 0) != nothing {
-		fail("exit-zero-mismatch", fmt.Sprintf("exit=%d but printed=%d failure=%v diff=%v", ref.exit, printed, failure, diffFound))
-	}
-	userSources := printed > 0 || diffFound || strings.Contains(ref.stderr, "file does not exist") && strings.Contains(ref.stderr, "import")
-	if (ref.exit == 100) != userSources {
-		fail("exit-100-mismatch", fmt.Sprintf("exit=%d but printed=%d diff=%v stderr=%.200q", ref.exit, printed, diffFound, ref.stderr))
-	}
-	if ref.exit != 0 && ref.exit != 100 && !failure {
-		fail("silent-operational-error", fmt.Sprintf("exit=%d without any message", ref.exit))
-	}
-	// format --exit-code: 100 exactly when a file of the workspace is not in canonical format
-	if w.Cmd == "format" && w.Operational == "" && !w.Syntax {
-		if (ref.exit == 100) != w.Diff || (ref.stdout != "") != w.Diff {
-			fail("format-diff-verdict", fmt.Sprintf("unformatted file planted=%v but exit=%d and diff printed=%v", w.Diff, ref.exit, ref.stdout != ""))
-		}
-	}
-	// the planted facts must show (harness sanity + property: a planted problem is reported)
-	if w.Operational == "" && w.Cmd != "format" {
-		planted := w.Compile || (w.Cmd == "lint" && w.PlantedLint > 0) || (w.Cmd == "breaking" && w.PlantedBrk > 0)
-		if planted != (printed > 0) {
-			fail("planted-not-reported", fmt.Sprintf("planted problems=%v but %d annotations printed (exit %d, stderr %.200q)", planted, printed, ref.exit, ref.stderr))
-		}
-	}
-	exitClass := strconv.Itoa(ref.exit)
-	b := func(x bool) string {
-		if x {
-			return "1"
-		}
-		return "0"
-	}
-	implOut := "exit=" + exitClass + " printed=" + b(printed > 0) + " failure=" + b(failure)
-	run.Case(w.ModelLine, implOut, ref.exit != 0)
-	run.Count("bin:" + w.Cmd + ":exit=" + exitClass)
-	if w.Operational != "" {
-		run.Count("bin:operational:" + w.Operational)
-	}
-	if strings.Contains(w.Files["buf.yaml"], "modules:") {
-		run.Count("bin:two-modules")
-	}
-	if w.Compile {
-		run.Count("bin:compile-or-import-problem")
-	}
-	run.Count(fmt.Sprintf("bin:annotations=%d", min(printed, 8)))
-	if idx%13 == 0 {
-		run.Sample(map[string]any{"cmd": w.Cmd, "args": w.Args, "exit": ref.exit, "json": ref.stdout + ref.stderr, "planted_lint": w.PlantedLint, "planted_breaking": w.PlantedBrk})
-	}
-	_ = recs
-	return runs
-}
-
-func buildBuf(run *hx.Run) (string, error) {
-	repo := os.Getenv("VERIF_REPO")
-	if repo == "" {
-		repo = "/repo"
-	}
-	out := filepath.Join(run.OutDir, "buf")
-	cmd := exec.Command("go", "build", "-o", out, "./cmd/buf")
-	cmd.Dir = repo
-	cmd.Env = os.Environ()
-	if b, err := cmd.CombinedOutput(); err != nil {
-		return "", fmt.Errorf("go build ./cmd/buf in %s: %v\n%s", repo, err, b)
-	}
-	return out, nil
-}
-
-// ---------------------------------------------------------------------------------------
 
 func main() {
 	run := hx.Start("C20")
@@ -1168,7 +744,7 @@ func main() {
 	defer os.RemoveAll(scratch)
 	procRuns := 0
 	do(func() { procRuns += binaryCase(run, idx, collisionWorkspace(), bufBin, scratch) })
-	nWs := run.N(64, 800)
+	nWs := run.N(96, 800)
 	for i := 0; i < nWs; i++ {
 		r := rnd.Fork(uint64(1_000_000 + i))
 		w := genWorkspace(r, i)
